@@ -14,7 +14,7 @@ from . import build
 from .terms import Term, canon, from_json, to_json
 
 BLANK = {"e": "", "F": [], "cleanup": True, "fixed": [], "f": "", "kwargs": [], "results": [], "loaded": [], "cls": "", "msg": "", "args": [], "attributed": False, "disk": [], "linputs": [], "ldefaults": [], "shapes": [],
-         "storage_in": [], "storage_out": [], "mapspecs_in": [], "mapspecs_out": [], "proc": "", "fixedraw": [], "new_inputs": []}
+         "storage_in": [], "storage_out": [], "mapspecs_in": [], "mapspecs_out": [], "proc": "", "fixedraw": [], "new_inputs": [], "cache": False}
 
 
 def ev(**kw) -> dict:
@@ -165,7 +165,8 @@ def do_map(pipeline, desc: dict, inputs_py: dict, *, run_folder: str | None, sto
            executor=None, output_names=None, internal_shapes=None, load=True, settle=None, **extra) -> tuple[list[dict], Any]:
     """One map run -> (events, results or exception)."""
     fnames = F if F is not None else [fd["name"] for fd in desc["funcs"]]
-    events = [ev(e="begin", F=fnames, cleanup=cleanup, fixed=fixed_resolved or [], fixedraw=fixed_raw or [])]
+    events = [ev(e="begin", F=fnames, cleanup=cleanup, fixed=fixed_resolved or [], fixedraw=fixed_raw or [],
+                 cache=pipeline.cache is not None)]
     start = len(build.LOG)
     buf = io.StringIO()
     try:
